@@ -33,7 +33,7 @@ dt = st.sampled_from([0.01, 0.1, 0.5, 0.9, 1.0, 1.1, 2.0, 5.0, 9.99, 10.0,
                       10.01, 30.0])
 
 
-autofeed = st.sampled_from([True, True, True, False])
+autofeed = st.sampled_from([True, True, False])
 
 
 def op_apply(limits=False, lost=False, unpicklable=False, soft=None, hard=None):
@@ -76,7 +76,8 @@ adv_lim = st.tuples(st.just('adv'), st.sampled_from(
     [0.99, 1.0, 1.01, 1.99, 2.0, 2.01, 3.0, 4.99, 5.0, 5.01, 9.99, 10.0, 10.01,
      19.99, 20.0, 20.01])).map(list)
 dier = st.tuples(st.just('die'), k, status, st.just(True)).map(list)
-feed = st.tuples(st.just('feed')).map(list)
+feed = st.one_of(st.tuples(st.just('feed')).map(list),
+                 st.just(['feed', None, False, True]))
 feed_fault = st.tuples(st.just('feed'), st.one_of(st.none(), st.integers(0, 3)),
                        st.booleans()).map(list)
 tick = st.just(['tick'])
